@@ -31,12 +31,14 @@ def shards(tier, seed):
         out.append({"kind": "moves", "count": 12 if tier == "quick" else 300, "lmax": 300, "seed": seed, "shard": i})
     for i in range(6):
         out.append({"kind": "solve", "count": 3 if tier == "quick" else 40, "seed": seed, "shard": i})
+    for i in range(2 if tier == "quick" else 8):
+        out.append({"kind": "ats", "count": 4 if tier == "quick" else 40, "seed": seed, "shard": i})
     return out
 
 
 def floors(tier):
     f = {"moves:observed": 10000, "moves:with_effect": 4000, "circuits:initial": 100, "circuits:>=100_moves": 20, "solver_runs": 15,
-         "fixed_ops:tracked": 20000}
+         "fixed_ops:tracked": 20000, "circuits:alternate_target_solver": 15}
     for mv in MOVES:
         f["move:" + mv] = 200
     f["effect:add_emitter_cnot"] = 100
@@ -251,15 +253,38 @@ def run_solve(seedt, ctx, mon, m):
         check_generated(solver.result[1], ctx, case, type(solver).__name__ + ".result")
 
 
+def run_ats(seedt, ctx, m):
+    """circuits returned by the alternate-target solver must respect the emission constraints as well"""
+    from graphiq.solvers.alternate_target_solver import AlternateTargetSolver, AlternateTargetSolverSetting
+    import math
+    rng = np.random.default_rng(seedt)
+    np.random.seed(int(rng.integers(2 ** 31)))
+    n = int(rng.integers(2, 6))
+    A = graphs.random_connected_graph(rng, n, 0.4)
+    case = {"kind": "ats", "seed": seedt}
+    setting = AlternateTargetSolverSetting(n_iso_graphs=int(min(math.factorial(n), rng.integers(1, 4))), n_lc_graphs=int(rng.integers(1, 4)),
+                                           lc_method=[None, "lc_with_iso", "random"][int(rng.integers(3))])
+    try:
+        res = AlternateTargetSolver(gq.nx_from_adj(A), solver_setting=setting, seed=int(rng.integers(100))).solve()
+    except Exception as e:
+        ctx.violation("solver_raises", case, {"solver": "AlternateTargetSolver", "exception": f"{type(e).__name__}: {e}"[:200]}, key=f"solve_exc:ats:{type(e).__name__}")
+        return
+    for circ, info in res:
+        ctx.count("circuits:alternate_target_solver")
+        check_generated(circ, ctx, case, "AlternateTargetSolver")
+
+
 def run_shard(spec, ctx):
     m = gq.mods()
     mon = MoveMonitor(ctx)
     for i in range(spec["count"]):
-        seedt = [spec["seed"], 4 if spec["kind"] == "moves" else 41, spec["shard"], i]
+        seedt = [spec["seed"], {"moves": 4, "solve": 41, "ats": 42}[spec["kind"]], spec["shard"], i]
         if spec["kind"] == "moves":
             run_moves(seedt, spec["lmax"], ctx, mon, m)
-        else:
+        elif spec["kind"] == "solve":
             run_solve(seedt, ctx, mon, m)
+        else:
+            run_ats(seedt, ctx, m)
 
 
 def replay(case, ctx):
@@ -267,5 +292,7 @@ def replay(case, ctx):
     mon = MoveMonitor(ctx)
     if case["kind"] == "moves":
         run_moves(case["seed"], case["lmax"], ctx, mon, m)
+    elif case["kind"] == "ats":
+        run_ats(case["seed"], ctx, m)
     else:
         run_solve(case["seed"], ctx, mon, m)
